@@ -60,7 +60,23 @@ DOM = [atom("a"), atom("b"), atom("c"), int_(0), int_(1), int_(2), int_(3)]
 
 
 # ------------------------------------------------------------------ generation
+def _two_arity_case(rng):
+    """one predicate name with two arities (edge/2 and edge/3), used by rules of the same script"""
+    from terms import int_
+    A_, B_, C_ = atom("a"), atom("b"), atom("c")
+    X, Y, W, P, Q, R = var("X"), var("Y"), var("W"), var("P"), var("Q"), var("R")
+    program = [gen.fact(fun("edge", A_, B_)), gen.fact(fun("edge", B_, C_)), gen.fact(fun("edge", A_, B_, int_(1))),
+               gen.fact(fun("edge", B_, C_, int_(2))), gen.fact(fun("edge", A_, C_, int_(5))),
+               (fun("hop", X, Y), call(fun("edge", X, Y))), (fun("cost", X, Y, W), call(fun("edge", X, Y, W))),
+               (fun("both", X, Y, W), conj(call(fun("edge", X, Y)), call(fun("edge", X, Y, W))))]
+    queries = [call(fun("hop", P, Q)), call(fun("cost", P, Q, R)), call(fun("edge", P, Q)), call(fun("edge", P, Q, R)),
+               call(fun("both", P, Q, R))]
+    return gen.Case("F1", "two-arities-%d" % rng.randint(0, 9), program, queries)
+
+
 def _base_case(rng):
+    if rng.random() < 0.12:
+        return "F1", _two_arity_case(rng)
     family = rng.choice(["F1", "F1", "F2", "F3", "F3"])
     gseed = rng.randint(0, 10 ** 9)
     for case in gen.cases(family, gseed, 1):
@@ -171,7 +187,7 @@ def make_scenario(seed, i):
             ctx_q = []
             for idx, k in enumerate(chosen):
                 sc["swap"].append({"name": k[0], "arity": k[1], "rows": [list(r) for r in fp[k]],
-                                   "style": rng.choice(["inferred", "explicit", "variadic", "inferred-decorated"]),
+                                   "style": rng.choice(["inferred", "explicit", "variadic", "inferred-decorated", "inferred-method"]),
                                    "yields": rng.choice(["true", "false", "mixed", "none"])})
                 if idx < 2:
                     rules, qs = _contexts(rng, k, fp[k], idx)
@@ -181,15 +197,22 @@ def make_scenario(seed, i):
                     for _ in range(rng.randint(1, 2)):
                         args = [rng.choice(DOM + [atom("dyn")]) for _ in range(k[1])]
                         sc["dyn"].append([rng.choice(["assertz", "asserta"]), fun(k[0], *args)])
+            # a variadic registration serves every arity of its name: with two arities of one name swapped, register per arity
+            names_ = [x["name"] for x in sc["swap"]]
+            for x in sc["swap"]:
+                if names_.count(x["name"]) > 1 and x["style"] == "variadic":
+                    x["style"] = rng.choice(["inferred", "explicit"])
             sc["contexts"] = ctx_rules
             sc["ctx_queries"] = ctx_q
     m = rng.randint(1, 5)
     sc["argcheck"] = {"templates": [rng.choice(_ARG_POOL) for _ in range(m)],
                       "caller": rng.choice(["api", "compiled", "compiled", "call", "call", "once", "findall"]),
-                      "split": rng.randint(0, m), "style": rng.choice(["inferred", "explicit", "variadic", "inferred-decorated"])}
+                      "split": rng.randint(0, m), "style": rng.choice(["inferred", "explicit", "variadic", "inferred-decorated", "inferred-method"])}
     sc["exc"] = {"query": rng.choice(_EXC_QUERIES), "succ": sorted(rng.sample([1, 2, 3], rng.randint(0, 3))),
                  "event": rng.randint(0, 7), "exc_class": rng.choice(["custom", "yp", "runtime", "key", "value"]),
-                 "style": rng.choice(["inferred", "explicit", "variadic", "inferred-decorated"])}
+                 "style": rng.choice(["inferred", "explicit", "variadic", "inferred-decorated", "inferred-method"])}
+    # the Python predicates are registered before (True) or after the script is loaded: the order is the user's choice
+    sc["register_first"] = rng.random() < 0.5
     return untup(sc)
 
 
@@ -250,6 +273,15 @@ def _traced(f):
 def register(real, name, f, arity, style):
     if style == "inferred":
         real.yp.register_function(name, f)
+    elif style == "inferred-method":
+        # a bound method of an object that nothing else refers to (the registration is what keeps the predicate alive)
+        ps = ",".join("a%d" % (i + 1) for i in range(arity))
+        env = {}
+        exec("class Holder:\n  def __init__(self, f):\n    self.f = f\n  def pred(self%s):\n    return self.f(%s)\n"
+             % ("," + ps if ps else "", ps), env)
+        real.yp.register_function(name, env["Holder"](f).pred)
+        import gc
+        gc.collect()
     elif style == "inferred-decorated":
         # arity inferred from the number of function arguments, as documented: the function's (visible) signature
         real.yp.register_function(name, _traced(f))
@@ -337,13 +369,17 @@ def run_swap(sc, out):
     try:
         common.timed(load, base, program)
         stripped = gen.strip_predicates(program, keys)
+        if sc.get("register_first"):
+            for s in swap:
+                register(swp, s["name"], make_native(swp, [tup(r) for r in s["rows"]], s["arity"], s["style"], s["yields"], entered),
+                         s["arity"], s["style"])
         common.timed(load, swp, stripped if stripped else [((atom("zz__none")), TRUE)])
     except Exception as e:
         out["extra"]["consult_failed"] = out["extra"].get("consult_failed", 0) + 1
         out["ev"] += 1
         out["fails"].append("consult raised %s: %s" % (type(e).__name__, str(e)[:200]))
         return
-    for s in swap:
+    for s in ([] if sc.get("register_first") else swap):
         f = make_native(swp, [tup(r) for r in s["rows"]], s["arity"], s["style"], s["yields"], entered)
         register(swp, s["name"], f, s["arity"], s["style"])
     desc = "; ".join("%s/%d as %s native yielding %s" % (s["name"], s["arity"], s["style"], s["yields"]) for s in swap)
